@@ -134,3 +134,171 @@ func (h *harness) registrationTie() {
 			Replay: map[string]any{"file": path}})
 	}
 }
+
+// ---- the steps around the runner (migrateIfNeeded) -----------------------------------------------
+
+// errChecked: statement st (at index i of list) carries call c as `x, err := c(...)` / `err := c(...)` /
+// `if err := c(...); err != nil {return non-nil}` and the error is tested and returned — in the same if
+// statement or in the next statement.
+func returnsNonNil(b *ast.BlockStmt) bool {
+	for _, st := range b.List {
+		if r, ok := st.(*ast.ReturnStmt); ok {
+			for _, e := range r.Results {
+				if id, ok := e.(*ast.Ident); !ok || id.Name != "nil" {
+					return true
+				}
+			}
+		}
+	}
+	return false
+}
+
+func isErrNotNil(fset *token.FileSet, e ast.Expr) bool { return exprString(fset, e) == "err != nil" }
+
+// wiringSteps walks a statement list in source order and emits one token per call of interest:
+// name + "!" when the call's error is returned, prefixed by `<switch>?` when nested under `if config.<Switch>`.
+func wiringSteps(fset *token.FileSet, list []ast.Stmt, prefix string, names map[string]string, out *[]string) {
+	callOf := func(e ast.Expr) (string, bool) {
+		c, ok := e.(*ast.CallExpr)
+		if !ok {
+			return "", false
+		}
+		fn := exprString(fset, c.Fun)
+		if fn == "migration.RunWithServer" && len(c.Args) > 0 {
+			return "serve(" + exprString(fset, c.Args[len(c.Args)-1]) + ")", true
+		}
+		n, ok := names[fn]
+		return n, ok
+	}
+	for i, st := range list {
+		switch v := st.(type) {
+		case *ast.IfStmt:
+			if as, ok := v.Init.(*ast.AssignStmt); ok && len(as.Rhs) == 1 {
+				if n, ok := callOf(as.Rhs[0]); ok {
+					tok := prefix + n
+					if isErrNotNil(fset, v.Cond) && returnsNonNil(v.Body) {
+						tok += "!"
+					}
+					*out = append(*out, tok)
+					continue
+				}
+			}
+			cond := exprString(fset, v.Cond)
+			if strings.HasPrefix(cond, "config.") || strings.HasPrefix(cond, "cfg.") {
+				sw := strings.ToLower(cond[strings.Index(cond, ".")+1:])
+				wiringSteps(fset, v.Body.List, prefix+sw+"?", names, out)
+				if v.Else != nil {
+					if eb, ok := v.Else.(*ast.BlockStmt); ok {
+						wiringSteps(fset, eb.List, prefix+"!"+sw+"?", names, out)
+					}
+				}
+			}
+		case *ast.AssignStmt:
+			if len(v.Rhs) != 1 {
+				continue
+			}
+			n, ok := callOf(v.Rhs[0])
+			if !ok {
+				continue
+			}
+			tok := prefix + n
+			hasErr := false
+			for _, l := range v.Lhs {
+				if id, ok := l.(*ast.Ident); ok && id.Name == "err" {
+					hasErr = true
+				}
+			}
+			if hasErr && i+1 < len(list) {
+				if nx, ok := list[i+1].(*ast.IfStmt); ok && nx.Init == nil && isErrNotNil(fset, nx.Cond) && returnsNonNil(nx.Body) {
+					tok += "!"
+				}
+			}
+			*out = append(*out, tok)
+		case *ast.ReturnStmt:
+			if len(v.Results) == 1 {
+				if n, ok := callOf(v.Results[0]); ok {
+					*out = append(*out, prefix+n+"!")
+				}
+			}
+		case *ast.ExprStmt:
+			if n, ok := callOf(v.X); ok {
+				*out = append(*out, prefix+n) // result discarded
+			}
+		}
+	}
+}
+
+// wiringTie: node/migration.go migrateIfNeeded read as a plan of steps (source level: package node cannot be
+// linked) and compared with the model's `nodePlan` — deprecated migrations first, then (prune mode only) the L1
+// head, then registry, NewRunner, Run, every error returned; with config.HTTP the same function under
+// migration.RunWithServer. The real RunWithServer itself is run by runWithServerTie.
+func (h *harness) wiringTie() {
+	repo := os.Getenv("VERIF_REPO")
+	if repo == "" {
+		repo = "/repo"
+	}
+	path := filepath.Join(repo, "node", "migration.go")
+	fset := token.NewFileSet()
+	f, err := parser.ParseFile(fset, path, nil, 0)
+	if err != nil {
+		h.res.Mismatch(lib.Mismatch{Sig: "registration-source-unreadable", Input: path, Impl: err.Error()})
+		return
+	}
+	names := map[string]string{
+		"deprecated.MigrateIfNeeded": "deprecated", "fetchL1HeadIfMissing": "fetchL1Head", "registerMigrations": "register",
+		"migration.NewRunner": "newRunner", "runner.Run": "run", "migrateFn": "migrateFn",
+	}
+	var inner, outer []string
+	found := false
+	ast.Inspect(f, func(n ast.Node) bool {
+		fd, ok := n.(*ast.FuncDecl)
+		if !ok || fd.Name.Name != "migrateIfNeeded" {
+			return true
+		}
+		for _, st := range fd.Body.List {
+			if as, ok := st.(*ast.AssignStmt); ok && len(as.Lhs) == 1 && len(as.Rhs) == 1 {
+				if id, ok := as.Lhs[0].(*ast.Ident); ok && id.Name == "migrateFn" {
+					if fl, ok := as.Rhs[0].(*ast.FuncLit); ok {
+						found = true
+						wiringSteps(fset, fl.Body.List, "", names, &inner)
+					}
+				}
+			}
+		}
+		wiringSteps(fset, fd.Body.List, "", names, &outer)
+		return false
+	})
+	got := strings.Join(inner, " ") + " | " + strings.Join(outer, " ")
+	want := h.bt.ask("node.plan")
+	h.res.Compared(1)
+	h.res.Case("node-wiring", true)
+	h.res.Hit("node-wiring-steps")
+	if !found || got != want {
+		// the order and the error handling of these steps is what the runner theorems assume of a start
+		// (`nodeStart`); a different plan may be perfectly sound, but then the model has to follow it
+		sig := "node-wiring-differs-from-model"
+		h.res.Mismatch(lib.Mismatch{Sig: sig, Input: path, Model: want, Impl: got})
+		// the two orderings the property itself depends on are decided here with the source as evidence
+		idx := func(l []string, name string) int {
+			for i, t := range l {
+				if strings.Contains(t, name) {
+					return i
+				}
+			}
+			return -1
+		}
+		for _, need := range []string{"deprecated!", "newRunner!", "run!"} {
+			if idx(inner, need) < 0 {
+				h.res.Violate(lib.Violation{Sig: "node-drops-the-error-of-a-migration-step",
+					What:   fmt.Sprintf("node/migration.go migrateIfNeeded: step %q is missing or its error is not returned (plan read from the source: %s) — a failed or refused upgrade would be reported as done", need, got),
+					Replay: map[string]any{"file": path, "plan": got, "expected": want}})
+				return
+			}
+		}
+		if o := idx(outer, "migrateFn"); o < 0 || !strings.HasSuffix(outer[len(outer)-1], "!") || (idx(outer, "serve(migrateFn)") >= 0 && !strings.HasSuffix(outer[idx(outer, "serve(migrateFn)")], "!")) {
+			h.res.Violate(lib.Violation{Sig: "node-drops-the-error-of-a-migration-step",
+				What:   fmt.Sprintf("node/migration.go migrateIfNeeded: the result of migrateFn (directly or under RunWithServer) is not returned (plan read from the source: %s)", got),
+				Replay: map[string]any{"file": path, "plan": got, "expected": want}})
+		}
+	}
+}
